@@ -184,4 +184,59 @@ class Rotation(Harness):
                                         len(out["original"]) == len(out["rotated"]))))]
 
 
-HARNESSES = [RuleOrder(), Rotation()]
+class SuperiorsOrder(Harness):
+    """protoclusters must not depend on the order the rules are listed in, beyond the documented removal of inferior rules:
+    a three-level SUPERIORS chain (low < mid < top) on two genes, the rules supplied in every order"""
+    pid, name = "C07", "superiors_order"
+    functions = [CP + "find_protoclusters", CP + "remove_redundant_protoclusters", CP + "merge_over_origin"]
+    bound = ("three rules in a chain of SUPERIORS (closed: the lowest names both others), two disjoint simple genes, one anchoring "
+             "the highest and the middle rule, the other the middle and the lowest (both assignments); symbolic coordinates, one "
+             "symbolic cutoff per rule, neighbourhood 0; linear (quick) and circular (thorough); all six orders of the rules")
+    outside = "more rules / genes; extenders (C03)"
+    task_paths = 150
+
+    def variants(self, tier):
+        return [{"circ": circ, "swap": swap} for circ in ((False,) if tier == "quick" else (False, True)) for swap in (False, True)]
+
+    def vars(self, var):
+        d = {"n": "int", "cl": "int", "cm": "int", "ct": "int"}
+        d.update(shape_vars("g0", "s"))
+        d.update(shape_vars("g1", "s"))
+        return d
+
+    def pre(self, var, v):
+        n = v["n"]
+        return L.And(shape_pre("g0", "s", v, n), shape_pre("g1", "s", v, n), v["g0e0"] <= v["g1s0"],
+                     [L.And(v[k] >= 1, v[k] <= 3 * n) for k in ("cl", "cm", "ct")])
+
+    def run(self, var, v):
+        first, second = ("g1", "g0") if var["swap"] else ("g0", "g1")
+        outs = []
+        for order in itertools.permutations(["low", "mid", "top"]):
+            rec = mkrecord(v["n"], var["circ"])
+            for i in range(2):
+                rec.add_cds_feature(DummyCDS(location=build("g%d" % i, "s", v), locus_tag="g%d" % i, translation="A"))
+            rules = {"low": rp.DetectionRule("low", "cat", v["cl"], 0, rp.SingleCondition(False, "a")),
+                     "mid": rp.DetectionRule("mid", "cat", v["cm"], 0, rp.SingleCondition(False, "b"), superiors=["low"]),
+                     "top": rp.DetectionRule("top", "cat", v["ct"], 0, rp.SingleCondition(False, "c"), superiors=["low", "mid"])}
+            anchors = {"low": {first}, "mid": {first, second}, "top": {second}}
+            by_type = {name: anchors[name] for name in order}
+            by_name = {name: rules[name] for name in order}
+            protos = cp.find_protoclusters(rec, by_type, by_name, {}, defaultdict(lambda: defaultdict(set)))
+            outs.append(sorted((p.product, tuple(canon_loc(p.core_location))) for p in protos))
+        return outs
+
+    def post(self, var, v, out):
+        if is_raised(out):
+            return [("no_raise", False)]
+        base = out[0]
+        same = []
+        for other in out[1:]:
+            if [p for p, _ in other] != [p for p, _ in base] or any(len(a[1]) != len(b[1]) for a, b in zip(base, other)):
+                same.append(False)
+                continue
+            same.append(L.And([L.And(x[0] == y[0], x[1] == y[1]) for a, b in zip(base, other) for x, y in zip(a[1], b[1])]))
+        return [("same_protoclusters_for_every_rule_order", L.And(same))]
+
+
+HARNESSES = [RuleOrder(), Rotation(), SuperiorsOrder()]
